@@ -4,6 +4,7 @@ package vsched
 
 import (
 	"fmt"
+	"os"
 	"strings"
 	"time"
 )
@@ -123,6 +124,13 @@ func Explore(scenario func(), eo ExploreOpts) *Report {
 			return
 		}
 		x := runOne(prefix)
+		if os.Getenv("VSDEBUG") != "" {
+			n := 0
+			for _, p := range x.Points {
+				n += len(p.OptThreads) - 1
+			}
+			fmt.Fprintf(os.Stderr, "visit prefix=%v points=%d alts=%d\n", prefix, len(x.Points), n)
+		}
 		cost := 0
 		for i := 0; i < len(prefix); i++ {
 			if isPreemption(x.Points[i], x.Points[i].Chosen) {
